@@ -181,6 +181,10 @@ def corpus_cases():
 
 
 def shrink(case):
+    if case["kind"] == "writeseq":
+        for i in range(len(case["records"])):
+            yield dict(case, records=case["records"][:i] + case["records"][i + 1:])
+        return
     if case["kind"] == "write":
         # restore perturbed slots one at a time
         rng = _random.Random(1)
@@ -232,6 +236,8 @@ def field_dontcare(d, t):
 
 
 def model_dontcare(case):
+    if case["kind"] == "writeseq":
+        return False
     if case["kind"] == "write":
         return _write_dontcare(case)
     if case["kind"] == "field":
@@ -265,6 +271,8 @@ def _write_dontcare(case):
 
 # ------------------------------------------------------------------ model wire
 def to_model(case):
+    if case["kind"] == "writeseq":
+        return [4]
     if case["kind"] == "write":
         return write_to_model(case)
     if case["kind"] == "field":
@@ -287,6 +295,8 @@ def _exn(sx):
 
 
 def from_model(case, sx):
+    if case["kind"] == "writeseq":
+        return {"seq": True}
     if case["kind"] == "write":
         return write_from_model(case, sx)
     if case["kind"] == "field":
@@ -326,6 +336,8 @@ def _str_of(x):
 def run_impl(case):
     from maflib.validation import MafFormatException, MafValidationErrorType, ValidationStringency
     from maflib.record import MafRecord
+    if case["kind"] == "writeseq":
+        return run_writeseq(case)
     if case["kind"] == "write":
         return run_write(case)
     if case["kind"] == "field":
@@ -467,6 +479,10 @@ def json_short(o):
 
 
 def classify(case, obs):
+    if case["kind"] == "writeseq":
+        ex = (obs or {}).get("extra", {})
+        return "writeseq/sort=%s/accepted=%d/refused=%d" % (case["sort"], sum(1 for o in ex.get("outcomes", []) if o == "accepted"),
+                                                          sum(1 for o in ex.get("outcomes", []) if o.startswith("refused")))
     if case["kind"] == "write":
         o = (obs or {}).get("cmp", {})
         res = "refused" if "raise" in o else ("unbuildable" if "unbuildable" in o else "emitted")
@@ -771,4 +787,94 @@ def oracle_c05_write(case, obs):
             i = names.index(g)
             if i < len(fields) and fields[i] != "":
                 out.append("strict-writer-emitted-germline-value | %s=%r" % (g, fields[i]))
+    return out
+
+
+# ---------------------------------------------------------------- sequences offered to one writer (direct or sorting)
+def gen_writeseq(rng):
+    annot = rng.choice(ANNOTS)
+    recs = []
+    for _ in range(rng.randint(2, 4)):
+        c = gen_write(rng, annots=[annot], strict_share=1.0)
+        recs.append({"slots": c["slots"], "stream": c["stream"], "hit": c["hit"]})
+    return {"kind": "writeseq", "annot": annot, "records": recs, "sort": rng.random() < 0.6, "mode": 1,
+            "stream": "seq-" + ("sort" if recs and rng.random() < 2 else "direct"), "hit": [i for i, r in enumerate(recs) if r["hit"]]}
+
+
+def run_writeseq(case):
+    from maflib.validation import MafFormatException, ValidationStringency
+    from maflib.header import MafHeader
+    from maflib.writer import MafWriter
+    from maflib.record import MafRecord
+    from maflib.sort_order import Coordinate
+    scheme = _scheme_for(case["annot"])
+    layout = SP.layout(case["annot"])
+    header = MafHeader.from_defaults(version=layout["version"],
+                                     annotation=None if case["annot"] == layout["version"] else case["annot"],
+                                     sort_order=Coordinate() if case["sort"] else None)
+    buf = _Buf()
+    writer = MafWriter.from_fd(buf, header, validation_stringency=ValidationStringency.Strict, assume_sorted=not case["sort"])
+    start = len(buf.text())
+    outcomes = []
+    for r in case["records"]:
+        sub = {"annot": case["annot"], "slots": r["slots"]}
+        try:
+            rec = build_api_record(sub)
+        except Exception as e:
+            outcomes.append("unbuildable")
+            continue
+        before = len(buf.text())
+        try:
+            writer += rec
+            outcomes.append("accepted")
+        except MafFormatException:
+            outcomes.append("refused" if len(buf.text()) == before else "refused-but-wrote")
+        except Exception as e:
+            outcomes.append("other-exception:" + type(e).__name__)
+    try:
+        writer.close()
+        closed = "ok"
+    except Exception as e:
+        closed = "close-raised:" + type(e).__name__
+    lines = buf.text()[start:].split("\n")
+    data = lines[:-1] if lines and lines[-1] == "" else lines
+    reread = []
+    for ln in data:
+        try:
+            MafRecord.from_line(ln, scheme=scheme, validation_stringency=ValidationStringency.Strict)
+            reread.append("ok")
+        except MafFormatException as e:
+            reread.append("rejected:" + e.tpe.name)
+        except Exception as e:
+            reread.append("exception:" + type(e).__name__)
+    # whole-file Strict read
+    whole = "ok"
+    try:
+        from maflib.reader import MafReader
+        rd = MafReader(lines=buf.text().split("\n")[:-1], validation_stringency=ValidationStringency.Strict)
+        n = sum(1 for _ in rd)
+        whole = "ok:%d" % n
+    except Exception as e:
+        whole = "failed:" + type(e).__name__
+    return {"cmp": {"seq": True}, "extra": {"outcomes": outcomes, "closed": closed, "n_data_lines": len(data), "reread": reread, "whole": whole}}
+
+
+def oracle_c06_seq(case, obs):
+    out = []
+    ex = obs["extra"]
+    acc = sum(1 for o in ex["outcomes"] if o == "accepted")
+    for o in ex["outcomes"]:
+        if o.startswith("other-exception"):
+            out.append("refused-with-other-exception/%s | sequence" % o.split(":")[1])
+        if o == "refused-but-wrote":
+            out.append("refused-record-left-bytes | sequence")
+    if ex["closed"] != "ok":
+        out.append("close-failed | %s" % ex["closed"])
+        return out
+    if ex["n_data_lines"] != acc:
+        out.append("output-line-count-differs-from-accepted-records | %d lines, %d accepted (sort=%s)" % (ex["n_data_lines"], acc, case["sort"]))
+    if any(r != "ok" for r in ex["reread"]):
+        out.append("emitted-line-rejected-by-strict-reader/sequence | %s" % [r for r in ex["reread"] if r != "ok"][:2])
+    if ex["whole"] != "ok:%d" % acc and not out:
+        out.append("strict-reader-rejects-the-file | %s (accepted %d)" % (ex["whole"], acc))
     return out
